@@ -130,6 +130,9 @@ def generate_static(ctx, only=None):
             # key would break them without breaking the property, so they are structural premises (a violation only
             # together with a native failing history from the bounded stand-in)
             st = {"structural": True, "functions_examined": helpers}
+            if fq.startswith("bldfm.solver"):
+                # a refuted frame obligation of the solver triggers the native witness search over call histories
+                st["history_search"] = True
             run.oblige("frame.reads-no-mutable-module-state", SBool(not mutable), kind="frame", props=props,
                        meta=dict(st, mutable_module_level_names_read=mutable))
             run.oblige("frame.declares-no-global", SBool(not glob), kind="frame", props=props, meta=dict(st, **{"global": sorted(glob)}))
